@@ -372,11 +372,66 @@ func shrinkBig(p m.Packet) {
 // before": the second call must succeed exactly when decoding B into a fresh receiver does,
 // and must leave the receiver equal to the fresh one.
 type c18Reuse struct {
-	Kind m.Kind
+	Kind m.Kind `json:",omitempty"`
+	Sub  string `json:",omitempty"` // an exported sub-structure decoder instead of a packet type
 	A, B m.Bytes
 }
 
+// c18SubReceiver returns a fresh receiver of an exported sub-structure and its decoder.
+func c18SubReceiver(name string) (interface{}, func([]byte) error) {
+	switch name {
+	case "Header":
+		r := new(rtcp.Header)
+		return r, r.Unmarshal
+	case "ReceptionReport":
+		r := new(rtcp.ReceptionReport)
+		return r, r.Unmarshal
+	case "SourceDescriptionChunk":
+		r := new(rtcp.SourceDescriptionChunk)
+		return r, r.Unmarshal
+	case "SourceDescriptionItem":
+		r := new(rtcp.SourceDescriptionItem)
+		return r, r.Unmarshal
+	case "RunLengthChunk":
+		r := new(rtcp.RunLengthChunk)
+		return r, r.Unmarshal
+	case "StatusVectorChunk":
+		r := new(rtcp.StatusVectorChunk)
+		return r, r.Unmarshal
+	case "RecvDelta":
+		r := new(rtcp.RecvDelta)
+		return r, r.Unmarshal
+	}
+	return nil, nil
+}
+
+func c18Dump(v interface{}) string {
+	var sb strings.Builder
+	deepDump(reflect.ValueOf(v), &sb, 0)
+	return sb.String()
+}
+
 var subC18Reuse = harness.NewSub("c18-unmarshal-into-used-receiver", func(c c18Reuse, _ harness.Dialect) error {
+	if c.Sub != "" {
+		fresh, decF := c18SubReceiver(c.Sub)
+		if fresh == nil {
+			return fmt.Errorf("unknown sub-decoder %q", c.Sub)
+		}
+		errF := decF(exactCopy(c.B))
+		used, decU := c18SubReceiver(c.Sub)
+		_ = decU(exactCopy(c.A))
+		errU := decU(exactCopy(c.B))
+		if (errF == nil) != (errU == nil) {
+			return fmt.Errorf("%s: decoding B into a fresh receiver gives error %v, into a receiver that decoded A before gives %v\nA: %s\nB: %s", c.Sub, errF, errU, hexs(c.A), hexs(c.B))
+		}
+		if errF != nil {
+			return nil
+		}
+		if df, du := c18Dump(fresh), c18Dump(used); df != du {
+			return fmt.Errorf("%s: the result of Unmarshal(B) depends on what the receiver decoded before\nfresh receiver: %s\nused receiver:  %s\nA: %s\nB: %s", c.Sub, df, du, hexs(c.A), hexs(c.B))
+		}
+		return nil
+	}
 	fresh := conv.New(c.Kind)
 	errF := fresh.Unmarshal(exactCopy(c.B))
 	used := conv.New(c.Kind)
@@ -398,6 +453,48 @@ var subC18Reuse = harness.NewSub("c18-unmarshal-into-used-receiver", func(c c18R
 	}
 	return nil
 })
+
+// genC18SubReuse draws two inputs for one sub-structure decoder: mostly well-formed ones of
+// different shapes (so that the first leaves something behind that the second does not
+// overwrite by itself), sometimes arbitrary bytes.
+func genC18SubReuse(t *rapid.T) c18Reuse {
+	name := rapid.SampledFrom(c01SubNames).Draw(t, "sub")
+	one := func(label string) []byte {
+		if rapid.IntRange(0, 5).Draw(t, label+".raw") == 0 {
+			return gen.BytesN(t, rapid.IntRange(0, 40).Draw(t, label+".n"), label+".bytes")
+		}
+		switch name {
+		case "Header":
+			b := gen.BytesN(t, 4, label)
+			b[0] = b[0]&0x3F | 0x80
+			return b
+		case "ReceptionReport":
+			return gen.BytesN(t, 24, label)
+		case "SourceDescriptionItem", "SourceDescriptionChunk":
+			var b []byte
+			if name == "SourceDescriptionChunk" {
+				b = gen.BytesN(t, 4, label+".src")
+			}
+			for i := rapid.IntRange(0, 4).Draw(t, label+".items"); i > 0 || (name == "SourceDescriptionItem" && len(b) == 0); i-- {
+				txt := gen.BytesN(t, rapid.IntRange(0, 9).Draw(t, label+".len"), label+".txt")
+				b = append(append(b, byte(rapid.IntRange(1, 8).Draw(t, label+".type")), byte(len(txt))), txt...)
+				if name == "SourceDescriptionItem" {
+					return b
+				}
+			}
+			b = append(b, 0)
+			for len(b)%4 != 0 {
+				b = append(b, 0)
+			}
+			return b
+		case "RecvDelta":
+			return gen.BytesN(t, rapid.IntRange(1, 2).Draw(t, label+".n"), label)
+		default: // the two chunk decoders: any 16-bit word
+			return gen.BytesN(t, 2, label)
+		}
+	}
+	return c18Reuse{Sub: name, A: one("A"), B: one("B")}
+}
 
 func genC18Reuse(t *rapid.T) c18Reuse {
 	k := rapid.SampledFrom(m.TypedKinds).Draw(t, "reuse.kind")
@@ -631,6 +728,12 @@ func TestC18(t *testing.T) {
 	harness.RapidCheck(t, harness.Scale(4000, 30000), 182, func(rt *rapid.T) {
 		c := genC18Reuse(rt)
 		harness.Record(subC18Reuse.Name, c, true, "reuse:"+string(c.Kind))
+		subC18Reuse.Check(rt, c)
+	})
+	// ... and into one receiver of every exported sub-structure
+	harness.RapidCheck(t, harness.Scale(3000, 20000), 183, func(rt *rapid.T) {
+		c := genC18SubReuse(rt)
+		harness.Record(subC18Reuse.Name, c, true, "reuse-sub:"+c.Sub)
 		subC18Reuse.Check(rt, c)
 	})
 }
